@@ -87,30 +87,22 @@ NEW_OPS = ("DropN", "Invoke", "InvokeSlot", "SuperInvoke", "Dup")       # instru
 
 
 def lines_spec(inp, out):
-    """"Line numbers stay attached to the instructions they came from", judged on the real output: the instructions the
-    optimiser copies, with their lines, form an order-preserving subsequence of the input pairs; an instruction it writes
-    itself carries the line of one of the input instructions it replaced (those between its copied neighbours).
-    Returns None or a message."""
+    """"Line numbers stay attached to the instructions they came from", judged on the real output: read left to right, an
+    instruction the optimiser copies is the next input instruction with the same text AND line; an instruction it writes
+    itself (DropN, Invoke, InvokeSlot, SuperInvoke, Dup) carries the line of a later-or-equal input instruction it replaced.
+    (Earliest match first: that leaves the most room for what follows, so a failure is a real one.)  Returns None or a message."""
     ip = [x for x in inp.split(";") if x]
-    op = [x for x in out.split(";") if x]
-    pos, k = [], 0
-    for x in op:
-        if x.split("@")[0].split()[0] in NEW_OPS:
-            pos.append(None)
-            continue
-        while k < len(ip) and ip[k] != x:
-            k += 1
-        if k == len(ip):
-            return "output instruction %s does not occur (with that line, in order) in the input" % x
-        pos.append(k)
-        k += 1
-    for j, x in enumerate(op):
-        if pos[j] is not None:
-            continue
-        lo = max([q for q in pos[:j] if q is not None] or [-1])
-        hi = min([q for q in pos[j + 1:] if q is not None] or [len(ip)])
-        if x.split("@")[1] not in {y.split("@")[1] for y in ip[lo + 1:hi]}:
-            return "written instruction %s carries a line none of the instructions it replaced has" % x
+    k = 0
+    for x in [y for y in out.split(";") if y]:
+        new = x.split("@")[0].split()[0] in NEW_OPS
+        ln = x.split("@")[1]
+        q = max(k - 1, 0) if new else k       # a written instruction may share the line of the input instruction just consumed (Invoke + InvokeSlot)
+        while q < len(ip) and (ip[q].split("@")[1] != ln if new else ip[q] != x):
+            q += 1
+        if q == len(ip):
+            return ("written instruction %s carries a line none of the remaining input instructions has" if new else
+                    "output instruction %s does not occur (with that line, in order) in the input") % x
+        k = max(k, q + 1)
     return None
 
 
